@@ -1969,7 +1969,8 @@ class DR_Results(OrderedDict):
             ext_new.drminfo = copy.copy(ext_old.drminfo)
             ext_new.drminfo.labels = labels
             for name in ["ext", "ext_x", "mx", "mn", "mx_x", "mn_x"]:
-                old = ext_old.__dict__[name]
+                # (events from `add_maxmin` have no mx, mn, mx_x, mn_x)
+                old = ext_old.__dict__.get(name)
                 if old is not None:
                     new = np.empty((n, old.shape[1]))
                     new[:] = np.nan
